@@ -37,7 +37,7 @@ CFG = dict(
         "sync() phases, OpenWith (commit-log trimming / PreallocFiles binary search, last-tx validation, precommitted "
         "reload by id/PrevAlh/record check, AHT reset / up-to-date / re-link), ahtree.OpenWith size checks. ABSTRACTED: "
         "tx record = id|prevAlh|len|body|alh with an opaque body carrying one value extent; H arbitrary 32-byte function; "
-        "AHT = one leaf log (payload+digest logs) + commit log; value logs synced in index order (Go iterates a map). NOT "
+        "AHT = one leaf log (payload+digest logs) + commit log. NOT "
         "modelled (falsifier only): chunk rotation, embedded values, external commit allowance, index (tbtree) recovery, "
         "DiscardPrecommittedTxsSince, truncation, compression",
         "model guards standing for Go's fixed-width types: tx id < 2^64, record size < 2^32, file offsets < 2^64",
